@@ -134,6 +134,17 @@ class FrameCollector:
             current_frame = current_frame.f_back
         return collected_frames, var_lookup
 
+    @staticmethod
+    def __variables_of(frame: FrameType) -> dict:
+        try:
+            f_locals = frame.f_locals
+            if type(f_locals) is dict:
+                return f_locals
+            return dict(f_locals)
+        except BaseException:
+            # one frame whose namespace cannot be read costs its own variables, not the snapshot
+            return {}
+
     def _process_frame(self, var_lookup: Dict[str, Variable], var_cache: VariableCacheProvider,
                        frame: FrameType, collect_vars: bool) -> StackFrame:
         # process the current frame info
@@ -141,7 +152,9 @@ class FrameCollector:
         filename = frame.f_code.co_filename
         func_name = frame.f_code.co_name
 
-        f_locals = frame.f_locals
+        # a copy as a plain dict: the variables of a frame can live in any mapping (the namespace a metaclass prepares
+        # for a class body, the one given to exec) - python asks it for items only, it need not have get() or keys()
+        f_locals = self.__variables_of(frame)
         _self = f_locals.get('self', None)
         class_name = None
         if _self is not None:
